@@ -517,7 +517,8 @@ func c18GenKids(r *core.Rng, kids []*snode, fill int) []*dnode {
 				n := r.Range(lo, hi)
 				d := &dnode{name: k.name}
 				// entries in an order that is not the sorted order of their keys ("k10" sorts before "k2")
-				keyPool := []string{"k3", "k10", "k1", "k2", "k05", "K4"}
+				// ("k": an entry whose key value is the name of the key leaf itself)
+				keyPool := []string{"k3", "k10", "k", "k1", "k2", "k05", "K4"}
 				off := r.Intn(len(keyPool))
 				twoKeys := false
 				for _, kk := range k.kids {
